@@ -43,6 +43,18 @@ fn parse_retry_after(response: &reqwest::Response) -> Option<Duration> {
         .map(Duration::from_secs)
 }
 
+/// Split the two directory levels (`ab`, `cd`) off a hex key string.
+///
+/// CDN paths and cache keys have the form `{ab}/{cd}/{abcd...}`. Keys that are too
+/// short for that layout (or not sliceable at those positions) are refused
+/// instead of panicking in the string slice.
+fn key_directories(hex_key: &str) -> Result<(&str, &str)> {
+    match (hex_key.get(..2), hex_key.get(2..4)) {
+        (Some(first), Some(second)) => Ok((first, second)),
+        _ => Err(ProtocolError::InvalidKey),
+    }
+}
+
 /// CDN endpoint configuration injected from external source
 #[derive(Debug, Clone)]
 pub struct CdnEndpoint {
@@ -145,15 +157,13 @@ impl CdnClient {
         // Use endpoint scheme if specified, otherwise default to https
         let scheme = endpoint.scheme.as_deref().unwrap_or("https");
 
+        // Callers validate the key length first; a shorter key yields empty
+        // directory levels here rather than a slice panic
+        let (first, second) = key_directories(&hex_key).unwrap_or(("", ""));
+
         format!(
             "{}://{}/{}/{}/{}/{}/{}",
-            scheme,
-            endpoint.host,
-            base_path,
-            content_type,
-            &hex_key[..2],
-            &hex_key[2..4],
-            hex_key
+            scheme, endpoint.host, base_path, content_type, first, second, hex_key
         )
     }
 
@@ -165,6 +175,7 @@ impl CdnClient {
         key: &[u8],
     ) -> Result<Vec<u8>> {
         let hex_key = hex::encode(key);
+        let (first, second) = key_directories(&hex_key)?;
 
         // Use full CDN path structure for cache key to match actual CDN organization
         // This allows direct correlation between cache files and CDN URLs
@@ -173,8 +184,8 @@ impl CdnClient {
             "cdn/{}/{}/{}/{}/{}",
             normalize_cdn_path(&endpoint.path),
             content_type,
-            &hex_key[..2],
-            &hex_key[2..4],
+            first,
+            second,
             hex_key
         );
 
@@ -224,6 +235,7 @@ impl CdnClient {
         key: &[u8],
         resume_from: Option<u64>,
     ) -> Result<Vec<u8>> {
+        key_directories(&hex::encode(key))?;
         let url = Self::build_url(endpoint, content_type, key);
 
         // If no resume point, use regular download
@@ -278,6 +290,7 @@ impl CdnClient {
         offset: u64,
         length: u64,
     ) -> Result<Vec<u8>> {
+        key_directories(&hex::encode(key))?;
         let url = Self::build_url(endpoint, content_type, key);
 
         let response = self
@@ -311,6 +324,7 @@ impl CdnClient {
     where
         F: FnMut(u64, u64) + Send,
     {
+        key_directories(&hex::encode(key))?;
         let url = Self::build_url(endpoint, content_type, key);
 
         let response = self.http_client.inner().get(&url).send().await?;
@@ -351,6 +365,7 @@ impl CdnClient {
     where
         F: FnMut(u64, u64) + Send,
     {
+        key_directories(&hex::encode(key))?;
         let url = Self::build_url(endpoint, content_type, key);
 
         let response = self.http_client.inner().get(&url).send().await?;
@@ -426,6 +441,7 @@ impl CdnClient {
         content_type: ContentType,
         key: &[u8],
     ) -> Result<Option<u64>> {
+        key_directories(&hex::encode(key))?;
         let url = Self::build_url(endpoint, content_type, key);
 
         let response = self.http_client.inner().head(&url).send().await?;
